@@ -1,0 +1,24 @@
+//go:build !verif
+
+package vm
+
+// Points reported to verifPoint (see verif_hooks.go); without the `verif`
+// build tag the hook is an empty, inlinable function.
+const (
+	VerifAwaitEnter = iota
+	VerifAwaitLocked
+	VerifAwaitSuspend
+	VerifAwaitFast
+	VerifTaskRun
+	VerifRegister
+	VerifRegistered
+	VerifUnlocked
+	VerifSettleEnter
+	VerifSettleLocked
+	VerifSettlePublished
+	VerifEnqueue
+	VerifSettleEnqueued
+	VerifSettleDone
+)
+
+func verifPoint(point int, p, task *Promise) {}
